@@ -231,15 +231,11 @@ func (w *World) executor(op *Op) (failsafe.Executor[R], context.Context) {
 		w.cancels[op.ExecID] = cancel
 	case CtxValue:
 		ctx = context.WithValue(context.Background(), ctxKey("k"), "v")
-		if op.CtxKey != "" {
-			ctx = context.WithValue(ctx, cachepolicy.CacheKey, op.CtxKey)
-		}
+		ctx = withCacheKey(ctx, op.CtxKey)
 	case CtxCancelValue:
 		var cancel context.CancelFunc
 		ctx = context.WithValue(context.Background(), ctxKey("k"), "v")
-		if op.CtxKey != "" {
-			ctx = context.WithValue(ctx, cachepolicy.CacheKey, op.CtxKey)
-		}
+		ctx = withCacheKey(ctx, op.CtxKey)
 		ctx, cancel = context.WithCancel(ctx)
 		w.cancels[op.ExecID] = cancel
 	}
@@ -588,4 +584,36 @@ func (w *World) nextDelayCall(pol int) int {
 	n := w.delayCalls[pol]
 	w.delayCalls[pol]++
 	return n
+}
+
+// Context cache keys: "" = none, KeyEmpty = an empty string key, KeyNonString = a value that is not a string.
+const (
+	KeyEmpty     = "<empty>"
+	KeyNonString = "<nonstring>"
+)
+
+func withCacheKey(ctx context.Context, k string) context.Context {
+	switch k {
+	case "":
+		return ctx
+	case KeyEmpty:
+		return context.WithValue(ctx, cachepolicy.CacheKey, "")
+	case KeyNonString:
+		return context.WithValue(ctx, cachepolicy.CacheKey, 42)
+	}
+	return context.WithValue(ctx, cachepolicy.CacheKey, k)
+}
+
+// effectiveCacheKey is the documented key rule: a string key supplied through the context takes precedence.
+func effectiveCacheKey(configured string, op *Op) string {
+	if op.Ctx != CtxValue && op.Ctx != CtxCancelValue {
+		return configured
+	}
+	switch op.CtxKey {
+	case "", KeyNonString:
+		return configured
+	case KeyEmpty:
+		return ""
+	}
+	return op.CtxKey
 }
